@@ -200,7 +200,9 @@ Proof. vm_compute. repeat split; reflexivity. Qed.
     (oracle [o], Life/FailStart.v), data = the statements of RunInfoRegistrar, RunSession.run,
     _on_start_run/_on_end_run, RunningProcess.__await__/_log_exited, RunResult, Result, Imp and
     Nextline interpreted along the trace of control points, for every world [w] = (outcome of the
-    child, exit code, whether the exit code is a key of _exitcode_to_name, run number, script). *)
+    child, exit code, whether the exit code is a key of _exitcode_to_name, run number, script,
+    and whether the implementations of a hook whose await raised had run -- cancellation in the
+    hook window -- or not).  "An await raises" includes a CancelledError delivered there. *)
 From Coq Require Import String List.
 From NL Require Import Life.RecordSyntax Life.RecordInterp Gen.RunRecord Life.RecordTie.
 Import ListNotations.
@@ -231,7 +233,10 @@ Theorem C02_tie_run_finished_event :
 Proof. exact run_finished_event. Qed.
 
 (** the two translations of Callback agree; the data statements of RunSession.run are keyed by
-    the control points of the skeleton, in its order, continuations on awaits *)
+    the control points of the skeleton, in its order, continuations on awaits.
+    (Honest label: agreements between two REGENERATED artefacts -- both sides change with the
+    source -- through hand-written dictionaries; what they protect is that the data statements are
+    attached to the right control points of the skeleton the exception analysis runs on.) *)
 Theorem C02_tie_callback_translations_agree :
   erase 20%nat (cb_method "start_run") = Some CS.start_run_skeleton /\
   erase 20%nat (cb_method "_run") = Some CS.run_skeleton /\
@@ -259,11 +264,12 @@ Theorem C02_tie_run_info_exact : forall w o,
 Proof. exact run_info_exact. Qed.
 
 (** ... i.e. a prefix of initialized, running, finished under one run number and script:
-    `running` iff on_start_run was reached, `finished` iff on_end_run was reached, nothing twice ... *)
+    `running` iff the implementations of on_start_run ran, `finished` iff those of on_end_run ran
+    ([hook_ran]: the await returned, or raised after they had run), nothing twice ... *)
 Theorem C02_tie_run_info_prefix : forall w o,
   exists d, data_run w (FS.trace o) = Ok d /\
-    d_eff d = firstn (1 + (if FS.called CS.StartRunHook (FS.trace o) then 1 else 0)
-                        + (if FS.called CS.EndRunHook (FS.trace o) then 1 else 0))%nat (full_record w).
+    d_eff d = firstn (1 + (if hook_ran (rw_ran w) CS.StartRunHook (FS.trace o) then 1 else 0)
+                        + (if hook_ran (rw_ran w) CS.EndRunHook (FS.trace o) then 1 else 0))%nat (full_record w).
 Proof. exact run_info_prefix. Qed.
 
 (** ... and when no await raises: exactly the three, each once, for EVERY outcome of the child
@@ -276,9 +282,9 @@ Proof. exact run_info_once. Qed.
     run's child, result() and format_exception() afterwards report the same, and the record's
     result is the JSON of what result() returns *)
 Theorem C02_tie_result_matches : forall w o,
-  FS.called CS.EndRunHook (FS.trace o) = true ->
+  hook_ran (rw_ran w) CS.EndRunHook (FS.trace o) = true ->
   exists d, data_run w (FS.trace o) = Ok d /\
-    In (run_info w "finished" (spec_result (rw_child w)) (spec_exception (rw_child w))) (d_eff d) /\
+    In (rec_finished w (spec_result (rw_child w)) (spec_exception (rw_child w))) (d_eff d) /\
     api d "result" = Ok (spec_value (rw_child w)) /\
     api d "format_exception" = Ok (spec_exception (rw_child w)) /\
     spec_result (rw_child w) = VJson (spec_value (rw_child w)).
@@ -287,9 +293,9 @@ Proof. exact result_matches. Qed.
 (** empty (JSON null, '', None) when the process died, whatever the exit code *)
 Theorem C02_tie_result_empty_when_died : forall w o,
   rw_child w = ChDied \/ (exists e, rw_child w = ChRaised e) ->
-  FS.called CS.EndRunHook (FS.trace o) = true ->
+  hook_ran (rw_ran w) CS.EndRunHook (FS.trace o) = true ->
   exists d, data_run w (FS.trace o) = Ok d /\
-    In (run_info w "finished" (VJson VNone) (VStr "")) (d_eff d) /\
+    In (rec_finished w (VJson VNone) (VStr "")) (d_eff d) /\
     api d "result" = Ok VNone /\ api d "format_exception" = Ok (VStr "").
 Proof. exact result_empty_when_died. Qed.
 
@@ -299,13 +305,33 @@ Theorem C02_tie_result_none_when_not_awaited : forall w o,
   exists d, data_run w (FS.trace o) = Ok d /\ api d "result" = Ok VNone /\ api d "format_exception" = Ok VNone.
 Proof. exact result_none_when_not_awaited. Qed.
 
+(** (3') CANCELLATION (or an exception) at the two awaits that end a run.  `_finish` still runs
+    ([C02_tie_run_finished_set_once_last]): state `finished`, waiters released -- but the record of
+    the run is never closed.  (i) at `await context.running_process`: the record stops at
+    `running`, on_end_run is never called, result()/format_exception() report None *)
+Theorem C02_tie_cancelled_at_process_wait : forall w o,
+  FS.called CS.AwaitProcess (FS.trace o) = true -> FS.returned CS.AwaitProcess (FS.trace o) = false ->
+  exists d, data_run w (FS.trace o) = Ok d /\ d_eff d = [rec_initialized w; rec_running w] /\
+    api d "result" = Ok VNone /\ api d "format_exception" = Ok VNone /\
+    FS.called CS.EndRunHook (FS.trace o) = false.
+Proof. exact cancelled_at_process_wait. Qed.
+
+(** (ii) inside `_on_end_run`, at the await of the on_end_run hook, before its implementations
+    had a step (apluggy gathers them as tasks): the record stops at `running` although
+    result()/format_exception() already report the outcome *)
+Theorem C02_tie_cancelled_in_on_end_run : forall w o,
+  FS.called CS.EndRunHook (FS.trace o) = true -> FS.returned CS.EndRunHook (FS.trace o) = false -> rw_ran w = false ->
+  exists d, data_run w (FS.trace o) = Ok d /\ d_eff d = [rec_initialized w; rec_running w] /\
+    api d "result" = Ok (spec_value (rw_child w)) /\ api d "format_exception" = Ok (spec_exception (rw_child w)).
+Proof. exact cancelled_in_on_end_run. Qed.
+
 (** (4) awaiting the process handle (RunningProcess.__await__, _log_exited, _format_time) raises
     for NO task result, NO exit code, whether or not the code is a key of _exitcode_to_name, and
     yields ExitedProcess(returned, raised) = the task's pair (Proc/Model.v [await_handle]) *)
 Theorem C02_tie_await_never_raises : forall a b code look,
   await_handle a b code look =
-  Ok (VObj "ExitedProcess" [("returned", a); ("raised", b);
-                            ("process", VObj "Process" [("exitcode", VInt code); ("pid", VInt 4242)])]).
+  Ok (VObj "ExitedProcess" [("returned", a); ("raised", b); ("process", process_of code);
+                            ("process_created_at", VTime true); ("process_exited_at", VTime true)]).
 Proof. exact await_never_raises. Qed.
 
 Theorem C02_tie_await_in_run_never_raises : forall w o,
@@ -322,7 +348,9 @@ Theorem C02_tie_task_of_run_in_process : forall w,
      exists ch, (is_some r, is_some e) = task_shape ch /\ (PM.process_died w = true -> ch = ChDied)).
 Proof. exact task_of_run_in_process. Qed.
 
-(** simulation with Life/Model.v: the publications of the regenerated code are, through
+(** simulation with Life/Model.v (of ONE quiet run, the three publishing steps; not an induction
+    over label lists: the model has no raising / cancelled await -- see (3')): the publications of
+    the regenerated code are, through
     [abs_pub], the run_info publications of the model's initialize_run / RT_Created step /
     RT_WaitChild step; where the model stores the outcome token in exited_proc, the code's
     result()/format_exception() report what its finished record shows *)
@@ -337,33 +365,43 @@ Theorem C02_tie_model_simulation : forall w sid o (s1 s2 s3 : M.state) ra,
        hd_error (ri_of (M.trace (M.do_step_run s2)));
        hd_error (ri_of (M.trace (M.do_step_run s3)))] /\
     M.exited_proc (M.do_step_run s3) = Some o /\
-    exists res exc, nth_error (d_eff d) 2%nat = Some (run_info w "finished" res exc) /\
+    exists res exc, nth_error (d_eff d) 2%nat = Some (rec_finished w res exc) /\
       api d "format_exception" = Ok exc /\ (r <- api d "result" ;; Ok (VJson r)) = Ok res.
 Proof. exact model_simulation. Qed.
 
 (** non-vacuity: os._exit(3) -- initialized, running, finished ('null', ''), result() None,
     format_exception() '' ... *)
 Example C02_tie_example_died_exit_3 :
-  let w := mkRun ChDied 3 false 1 (Some "import os; os._exit(3)") VNone in
+  let w := mkRun ChDied 3 false 1 (Some "import os; os._exit(3)") VNone true in
   (d <- data_run w (FS.trace []) ;; r <- api d "result" ;; f <- api d "format_exception" ;; Ok (d_eff d, r, f))
-  = Ok ([run_info w "initialized" VNone VNone; run_info w "running" VNone VNone;
-         run_info w "finished" (VJson VNone) (VStr "")], VNone, VStr "").
+  = Ok ([rec_initialized w; rec_running w; rec_finished w (VJson VNone) (VStr "")], VNone, VStr "").
 Proof. exact example_died_exit_3. Qed.
 
 (** ... the await of the process itself raising (oracle): the record stops at `running` ... *)
 Example C02_tie_example_wait_cancelled :
-  let w := mkRun ChDied (-2) true 1 None VNone in
+  let w := mkRun ChDied (-2) true 1 None VNone false in
   let t := FS.trace [false; false; false; true] in
-  FS.returned CS.AwaitProcess t = false /\
+  FS.called CS.AwaitProcess t = true /\ FS.returned CS.AwaitProcess t = false /\
   (d <- data_run w t ;; f <- api d "format_exception" ;; Ok (d_eff d, f))
-  = Ok ([run_info w "initialized" VNone VNone; run_info w "running" VNone VNone], VNone).
+  = Ok ([rec_initialized w; rec_running w], VNone).
 Proof. exact example_wait_cancelled. Qed.
+
+(** ... a cancellation inside `_on_end_run` before the hook implementations had a step: the
+    outcome is reported, the record stays at `running`, `_run_finished` is set all the same ... *)
+Example C02_tie_example_cancelled_in_on_end_run :
+  let w := mkRun (ChReturned (VOpaque 5) None) 0 false 1 None VNone false in
+  let t := FS.trace [false; false; false; false; false; false; false; true] in
+  FS.called CS.EndRunHook t = true /\ FS.returned CS.EndRunHook t = false /\
+  FS.count CS.SetRunFinished (FS.acts t) = 1%nat /\
+  (d <- data_run w t ;; r <- api d "result" ;; Ok (d_eff d, r))
+  = Ok ([rec_initialized w; rec_running w], VOpaque 5).
+Proof. exact example_cancelled_in_on_end_run. Qed.
 
 (** ... and the interpreter does tell `d[k]` from `d.get(k)`: with the former in _log_exited the
     await raises KeyError for exit code 3 (seed C02-4) *)
 Example C02_tie_example_indexing_would_raise :
-  (let h := handle_of (VTuple [VNone; VNone]) 3 in
-   eval prog_indexing (mkWorld h false) FUEL (mkCfg [("h", h)] [] []) (EAwaitHandle (EName "h"))) = Exn XKey
+  (h <- handle_of (VTuple [VNone; VNone]) 3 ;;
+   eval prog_indexing (mkWorld h false true) FUEL (mkCfg [("h", h)] [] []) (EAwaitHandle (EName "h"))) = Exn XKey
   /\ await_handle VNone VNone 3 false <> Exn XKey.
 Proof. exact indexing_would_raise. Qed.
 
@@ -395,10 +433,13 @@ Print Assumptions C02_tie_run_info_once.
 Print Assumptions C02_tie_result_matches.
 Print Assumptions C02_tie_result_empty_when_died.
 Print Assumptions C02_tie_result_none_when_not_awaited.
+Print Assumptions C02_tie_cancelled_at_process_wait.
+Print Assumptions C02_tie_cancelled_in_on_end_run.
 Print Assumptions C02_tie_await_never_raises.
 Print Assumptions C02_tie_await_in_run_never_raises.
 Print Assumptions C02_tie_task_of_run_in_process.
 Print Assumptions C02_tie_model_simulation.
 Print Assumptions C02_tie_example_died_exit_3.
 Print Assumptions C02_tie_example_wait_cancelled.
+Print Assumptions C02_tie_example_cancelled_in_on_end_run.
 Print Assumptions C02_tie_example_indexing_would_raise.
